@@ -214,3 +214,20 @@ fn d12_oid_order() {
 // helper used by d3 to keep SnmpRelativeOid imported on both trees
 #[allow(dead_code)]
 fn _touch(_: Option<SnmpRelativeOid>) {}
+
+// D17: binary REAL (X.690 8.5.7): two's complement exponent, F = 0, mantissa wider than 32 bits
+#[test]
+fn d17_real_binary() {
+    // 09 03 80 ff 01 : base 2, F=0, exponent -1, N=1 -> 0.5
+    let (_, v) = SnmpReal::from_ber(&[9u8, 3, 0x80, 0xff, 0x01]).unwrap();
+    assert_eq!(f64::from(v), 0.5);
+    // 09 03 c0 01 03 : sign -, base 2, exponent 1, N=3 -> -6
+    let (_, v) = SnmpReal::from_ber(&[9u8, 3, 0xc0, 0x01, 0x03]).unwrap();
+    assert_eq!(f64::from(v), -6.0);
+    // 09 07 80 00 01 00 00 00 00 : exponent 0, N = 2^32
+    let (_, v) = SnmpReal::from_ber(&[9u8, 7, 0x80, 0x00, 0x01, 0, 0, 0, 0]).unwrap();
+    assert_eq!(f64::from(v), 4294967296.0);
+    // 09 04 83 01 02 05 : exponent length in the next octet (1), exponent 2, N = 5 -> 20
+    let (_, v) = SnmpReal::from_ber(&[9u8, 4, 0x83, 0x01, 0x02, 0x05]).unwrap();
+    assert_eq!(f64::from(v), 20.0);
+}
